@@ -36,7 +36,17 @@ func edgeDatePicture(r *prng.R) string {
 		if r.Intn(2) == 0 {
 			w = edgeWidths[r.Intn(len(edgeWidths))]
 		}
-		sb.WriteString("[" + string(c) + pres + w + "]")
+		switch r.Intn(12) {
+		case 0:
+			// whitespace inside a marker is ignored; a marker of nothing else is empty
+			sb.WriteString("[" + r.Pick(" ", "\t", " \n ", "  ", "\r\n") + "]")
+		case 1:
+			sb.WriteString("[ " + string(c) + " " + pres + " " + w + " ]")
+		case 2:
+			sb.WriteString("[" + string(c) + "\n" + pres + w + "]")
+		default:
+			sb.WriteString("[" + string(c) + pres + w + "]")
+		}
 	}
 	return sb.String()
 }
